@@ -334,7 +334,7 @@ theorem wide_change_dirties_span (b : Buf) (x y i : Int) (m : Rune) (c : List Ru
 /-! ### both trees: the pinned Fill and the Fill repaired by fixes/C09-fill-zero-width.patch
 
 `Buf.applyV fz` / `Buf.runV fz` / `runGhostV fz` are the op semantics of the tree of variant `fz`
-(`fz = false`: pinned, Fill stores width 1 for every rune; `fz = true`: Fill stores width 0 for a zero-width rune).
+(`fz = false`: pinned, Fill stores every rune as given; `fz = true`: Fill stores a blank for a zero-width rune; width 1 on both).
 The theorems above are about `fz = false` (`applyV_false`); the ones below hold for both. -/
 
 theorem applyV_false (b : Buf) (op : CbOp) : b.applyV false rw op = b.apply rw op := by
@@ -347,14 +347,14 @@ theorem runV_false (ops : List CbOp) (b : Buf) : Buf.runV false rw b ops = Buf.r
     show Buf.runV false rw (b.applyV false rw op) ops = Buf.run rw (b.apply rw op) ops
     rw [applyV_false]; exact ih _
 
-/-- Fill of either tree stores the rune with no combining runes in every cell, merging ColorNone per cell; the
-recorded width is 1, except that the repaired tree records 0 for a zero-width rune. -/
+/-- Fill of either tree stores a rune with no combining runes and width 1 in every cell, merging ColorNone per cell;
+the rune is the one given, except that the repaired tree stores a blank for a zero-width rune. -/
 theorem fillV_spec (fz : Bool) (b : Buf) (r : Rune) (s : Style) (x y : Int) :
     let c' := (b.fillV fz rw r s).cells x y
-    c'.currMain = r ∧ c'.currComb = [] ∧ c'.width = (if fz = true ∧ rw r = 0 then 0 else 1) ∧
+    c'.currMain = (if fz = true ∧ rw r = 0 then 32 else r) ∧ c'.currComb = [] ∧ c'.width = 1 ∧
     c'.currStyle = { s with fg := if s.fg = colorNone then (b.cells x y).currStyle.fg else s.fg,
                             bg := if s.bg = colorNone then (b.cells x y).currStyle.bg else s.bg } := by
-  simp [Cell.filledW, Cell.fillWidth, Style.merge]
+  simp [Cell.filled, Cell.fillRune, Style.merge]
 
 /-- **GetContent after the repaired Fill**, for EVERY rune (zero-width, control, wide, out of range): the rune with
 a blank substituted exactly as after SetContent (`get_set`), no combining runes, the merged style, width 1. -/
@@ -362,11 +362,10 @@ theorem get_fill_repaired (b : Buf) (r : Rune) (s : Style) (x y : Int) (hr : b.i
     (b.fillV true rw r s).getContent x y =
       (if rw r = 0 ∨ r < 32 then 32 else r, [], (b.cells x y).currStyle.merge s, 1) := by
   have hr' : (b.fillV true rw r s).inRange x y := by simpa [inRange_iff] using hr
-  simp only [getContent, if_pos hr', fillV_cells, Cell.filledW_width, Cell.filledW_currMain, Cell.filledW_currComb,
-    Cell.filledW_currStyle]
+  simp only [getContent, if_pos hr', fillV_cells, Cell.filled]
   by_cases h0 : rw r = 0
-  · simp [Cell.fillWidth_true_zero rw r h0, h0]
-  · by_cases h1 : r < 32 <;> simp [Cell.fillWidth_ne0 true rw r h0, h0, h1]
+  · simp [Cell.fillRune_true_zero rw r h0, h0]
+  · by_cases h1 : r < 32 <;> simp [Cell.fillRune_ne0 true rw r h0, h0, h1]
 
 /-- …whereas the pinned Fill hands back a zero-width rune at or above ' ' unblanked (the defect `C08-fill-zero-width` /
 `C09-fill-control`; concrete instance: `Tcell.Props.C09.fill_c1_not_blank`). -/
@@ -390,7 +389,7 @@ zero rune to a blank by SetDirty(false) (= the hypothesis `hw` of `reported_widt
 Fill" disjunct) -/
 def WidthExact (c : Cell) : Prop := c.width = rw c.currMain ∨ (c.width = 0 ∧ c.currMain = 32)
 
-theorem widthExact_step (fz : Bool) (h0 : rw 0 = 0) (b : Buf) (hb : ∀ x y, WidthExact rw (b.cells x y)) (op : CbOp)
+theorem widthExact_step (fz : Bool) (h0 : rw 0 = 0) (h32 : rw 32 = 1) (b : Buf) (hb : ∀ x y, WidthExact rw (b.cells x y)) (op : CbOp)
     (hop : FillOk rw fz op) : ∀ i j, WidthExact rw ((b.applyV fz rw op).cells i j) := by
   intro i j
   have hij := hb i j
@@ -410,11 +409,11 @@ theorem widthExact_step (fz : Bool) (h0 : rw 0 = 0) (b : Buf) (hb : ∀ x y, Wid
       · exact pre
     · exact hij
   | fill r s =>
-    simp only [Buf.applyV, fillV_cells, WidthExact, Cell.filledW_width, Cell.filledW_currMain]
+    simp only [Buf.applyV, fillV_cells, WidthExact, Cell.filled]
     left
     rcases hop with h | ⟨hf, h⟩
-    · rw [Cell.fillWidth_ne0 fz rw r (by omega), h]
-    · subst hf; rw [Cell.fillWidth_true_zero rw r h, h]
+    · rw [Cell.fillRune_ne0 fz rw r (by omega), h]
+    · subst hf; rw [Cell.fillRune_true_zero rw r h, h32]
   | resize w h =>
     simp only [Buf.applyV, Buf.apply]
     by_cases hh : b.h = h ∧ b.w = w
@@ -446,7 +445,7 @@ theorem widthExact_step (fz : Bool) (h0 : rw 0 = 0) (b : Buf) (hb : ∀ x y, Wid
     · simpa [WidthExact] using hij
     · exact hij
 
-theorem widthExact_inv (fz : Bool) (h0 : rw 0 = 0) (ops : List CbOp) (hops : ∀ op ∈ ops, FillOk rw fz op) (x y : Int) :
+theorem widthExact_inv (fz : Bool) (h0 : rw 0 = 0) (h32 : rw 32 = 1) (ops : List CbOp) (hops : ∀ op ∈ ops, FillOk rw fz op) (x y : Int) :
     WidthExact rw ((Buf.runV fz rw Buf.empty ops).cells x y) := by
   suffices H : ∀ (ops : List CbOp) (b : Buf), (∀ op ∈ ops, FillOk rw fz op) → (∀ x y, WidthExact rw (b.cells x y)) →
       ∀ x y, WidthExact rw ((Buf.runV fz rw b ops).cells x y) by
@@ -457,7 +456,7 @@ theorem widthExact_inv (fz : Bool) (h0 : rw 0 = 0) (ops : List CbOp) (hops : ∀
   | cons op ops ih =>
     intro b ho hb
     exact ih _ (fun o h => ho o (List.mem_cons_of_mem _ h))
-      (widthExact_step rw fz h0 b hb op (ho op (List.mem_cons_self ..)))
+      (widthExact_step rw fz h0 h32 b hb op (ho op (List.mem_cons_self ..)))
 
 /-- **The reported-width law, full strength, on either tree.**  After every history in which Fill is used with runes
 of width 1 — on the repaired tree: with runes *not wider than one column*, zero-width, control and invalid ones
@@ -470,7 +469,7 @@ theorem reported_width_law (fz : Bool) (h0 : rw 0 = 0) (h32 : rw 32 = 1) (ops : 
     let m := (b.cells x y).currMain
     ((b.getContent x y).2.2.2 = if rw m = 0 ∨ m < 32 then 1 else rw m) ∧
     ((b.getContent x y).1 = if rw m = 0 ∨ m < 32 then 32 else m) :=
-  reported_width rw h32 _ x y hr (widthExact_inv rw fz h0 ops hops x y)
+  reported_width rw h32 _ x y hr (widthExact_inv rw fz h0 h32 ops hops x y)
 
 /-- the ghost invariant is preserved by every op on either tree -/
 theorem ghostInv_stepV (fz : Bool) (b : Buf) (g : Ghost) (op : CbOp) (hinv : GhostInv b g) :
@@ -478,7 +477,7 @@ theorem ghostInv_stepV (fz : Bool) (b : Buf) (g : Ghost) (op : CbOp) (hinv : Gho
   cases op with
   | fill r s =>
     intro i j hr hl
-    simp only [Buf.applyV, Ghost.step, fillV_cells, Cell.filledW_lastMain, Cell.filledW_last] at hr hl ⊢
+    simp only [Buf.applyV, Ghost.step, fillV_cells, Cell.filled_lastMain, Cell.filled_last] at hr hl ⊢
     exact hinv i j (by simpa [inRange_iff] using hr) hl
   | setContent x y m c s => exact ghostInv_step rw b g _ hinv
   | resize w h => exact ghostInv_step rw b g _ hinv
